@@ -258,9 +258,9 @@ Section Cache.
     Variable E : str -> vent -> cstate -> cres (kind * cstate).
     Hypothesis HE : forall n e V, (forall c, In c (ent_refs e) -> (rk c < V)%nat) -> ck_ok (E n e) V.
 
-    Lemma inst_loop_ck me V : forall l s s',
+    Lemma inst_loop_ck vn me V : forall l s s',
       (forall a c, In a l -> In c (ent_refs (snd a)) -> (rk c < V)%nat) ->
-      inv s -> inst_loop hf g E me l s = COk s' -> inv s' /\ grow V s s'.
+      inv s -> inst_loop hf g E vn me l s = COk s' -> inv s' /\ grow V s s'.
     Proof.
       induction l as [|[n e] l IH]; intros s s' Hl Hi H; cbn [inst_loop] in H.
       - injection H as <-. split; [exact Hi | apply grow_refl].
@@ -268,7 +268,7 @@ Section Cache.
         destruct (HE n e V (fun c Hc => Hl (n, e) c (or_introl eq_refl) Hc) s k s1 Hi H1) as [I1 G1].
         assert (C2 : cs_cache s2 = cs_cache s1).
         { destruct e as [ | | |rf cr| | ]; try (injection H2 as <-; reflexivity).
-          inv_bind H2 as sa Ha. destruct (use_or_own_frame g _ _ _ _ _ _ _ Ha) as [_ Ca].
+          inv_bind H2 as sa Ha. destruct (use_or_own_frame g _ _ _ _ _ _ _ _ Ha) as [_ Ca].
           destruct (reset_self_owner_frame _ _ _ _ H2) as [_ Cb]. congruence. }
         assert (C3 : cs_cache s3 = cs_cache s2).
         { unfold put_if_export in H3. destruct (get_if _ _) as [x|]; [|discriminate]. destruct (assoc _ _); [discriminate|].
@@ -293,9 +293,9 @@ Section Cache.
       destruct G1 as [n [E1 F1]]. exists n. split; [exact E1 | exact F1].
     Qed.
 
-    Lemma comp_imports_ck me V : forall l s s',
+    Lemma comp_imports_ck vn me V : forall l s s',
       (forall a c, In a l -> In c (ent_refs (snd a)) -> (rk c < V)%nat) ->
-      inv s -> comp_imports hf g E me l s = COk s' -> inv s' /\ grow V s s'.
+      inv s -> comp_imports hf g E vn me l s = COk s' -> inv s' /\ grow V s s'.
     Proof.
       induction l as [|[n e] l IH]; intros s s' Hl Hi H; cbn [comp_imports] in H.
       - injection H as <-. split; [exact Hi | apply grow_refl].
@@ -303,7 +303,7 @@ Section Cache.
         destruct (HE n e V (fun c Hc => Hl (n, e) c (or_introl eq_refl) Hc) s k s1 Hi H1) as [I1 G1].
         assert (C2 : cs_cache s2 = cs_cache s1).
         { destruct e as [ | | |rf cr| | ]; try (injection H2 as <-; reflexivity).
-          destruct (use_or_own_frame g _ _ _ _ _ _ _ H2) as [_ Ca]. exact Ca. }
+          destruct (use_or_own_frame g _ _ _ _ _ _ _ _ H2) as [_ Ca]. exact Ca. }
         assert (C3 : cs_cache s3 = cs_cache s2).
         { unfold put_world_import in H3. destruct (get_world _ _) as [x|]; [|discriminate]. destruct (assoc _ _); [discriminate|].
           destruct (upd_world _ _ _); [|discriminate]. injection H3 as <-. reflexivity. }
